@@ -129,10 +129,10 @@ def gen_ff(rnd):
         if 'resname' in link['attrs']:
             key_attrs = {pk: {} for pk in pool}
         for _ in range(rnd.randint(1, 3)):
-            t = rnd.choice(['bonds', 'angles', 'dihedrals', 'constraints', 'exclusions', '!bonds', '!angles'])
+            t = rnd.choice(['bonds', 'angles', 'dihedrals', 'constraints', 'exclusions', '!bonds', '!angles', '!dihedrals'])
             if rnd.random() < 0.2:
                 t = rnd.choice(['pairs', 'pairs_nb', 'position_restraints', 'virtual_sites2', 'distance_restraints', '!pairs_nb',
-                                '!constraints', 'orientation_restraints'])
+                                '!constraints', 'orientation_restraints', '!virtual_sites2'])
             n = NATOMS[t.lstrip('!')] or 2
             lines = []
             for _ in range(rnd.randint(1, 2)):
